@@ -12,6 +12,7 @@ func init() {
 			ruleConstants(c, "C11.8")
 			ruleChannelClose(c, "C11.9")
 			ruleWaitsReleased(c, "C11.10")
+			rulePlumbing(c, "C11.11", "options")
 		},
 		Explain:    "Static necessary conditions of revision negotiation: symmetric attach/detect of the negotiate header on all four opening paths with the detected flag configuring the endpoint; settings emitted only to a negotiating client, once, with id -1, the supported revisions and the window; the client's settings prologue only when advertised, every malformed input closing the channel; highest-common-revision selection; supportedRevisions honouring the option; flow-controlled vs plain sender/receiver chosen by the stream's revision, window updates only from the flow-controlled receiver's callback; empty list = revision zero.",
 		Assume:     []string{"metadata.MD.Get returns the values in order", "constants grpctunnel-negotiate / on are the agreed header"},
@@ -27,6 +28,7 @@ func init() {
 			ruleUnregisterAndCallbacks(c, "C12.6", "C12.7")
 			ruleKeyAsChannel(c, "C12.8")
 			ruleGetOrCreateAtomic(c, "C12.10")
+			rulePlumbing(c, "C12.11", "teardown")
 		},
 		Explain:    "Static necessary conditions of registry consistency: every registry field access under its mutex; add paired with a deferred remove of the same channel on the same registry before the handler blocks, Close deferred first; the channel's tear-down (unregister) runs before it is marked finished; round-robin pick: advance by one, wrap at len (>=), element read at the cursor of a non-empty list in one critical section, nil -> Unavailable, arguments passed through; latch closed exactly on 0->1 and re-made exactly on 1->0; unregister uses the key returned by the first removal; one open callback after registration and a deferred close callback.",
 		Assume:     []string{"lock identity is type + field"},
